@@ -173,7 +173,7 @@ def has_annotations(prog):
 def abstract_subterm(prog, path, node, bound, rng, fresh="zz_abs"):
     """E[S]  ->  zz_abs S   with   let zz_abs zz_p = E[zz_p];   for a closed expression E and a closed proper
     sub-expression S of it (beta-expansion: the sub-expression becomes the argument of a single-use function whose
-    body is the rest).  None when no such S exists."""
+    body is the rest).  None when no such S exists.  rng = None: every choice of S (a list)."""
     if free_names(node) & bound:
         return None
     d0 = enclosing_decl(prog["mods"][prog["main"]], path)
@@ -184,14 +184,17 @@ def abstract_subterm(prog, path, node, bound, rng, fresh="zz_abs"):
     # expr_paths treats `node` as statement 1: sub-paths start with [1, ...]
     if not inner:
         return None
-    p, s, b, cx = inner[rng.randrange(len(inner))]
-    body = replace_at([node], p, N("var", "zz_p"))[0]
-    m = prog["main"]
-    stmts = replace_at(prog["mods"][m], path, N("app", a=[N("var", fresh), copy.deepcopy(s)]))
-    stmts.insert(0, N("decl", fresh, n=1, a=[N("bind", "zz_p"), body]))
-    q = copy.deepcopy(prog)
-    q["mods"][m] = stmts
-    return q
+    chosen = inner if rng is None else [inner[rng.randrange(len(inner))]]
+    out = []
+    for p, s, b, cx in chosen:
+        body = replace_at([node], p, N("var", "zz_p"))[0]
+        m = prog["main"]
+        stmts = replace_at(prog["mods"][m], path, N("app", a=[N("var", fresh), copy.deepcopy(s)]))
+        stmts.insert(0, N("decl", fresh, n=1, a=[N("bind", "zz_p"), body]))
+        q = copy.deepcopy(prog)
+        q["mods"][m] = stmts
+        out.append(q)
+    return out if rng is None else out[0]
 
 
 def alpha_rename_each(prog, fresh_suffix="_ar"):
